@@ -28,7 +28,8 @@ VARIABLES
   st,                \* [Jobs -> {"none","blocked","queued","running","successful","errored"}] NodeExecution sets
   started,           \* [Nodes -> BOOLEAN]  NodeExecution.start() called / marked unrunnable
   unrunnable,        \* [Nodes -> BOOLEAN]
-  w,                 \* [Jobs -> {"idle","submitted","executing","finishing","ok","err"}] worker side
+  w,                 \* [Jobs -> {"idle","submitted","executing","finishing","saved_ok","saved_err","ok","err"}] worker side:
+                     \*   saved_* = the result is on disk (visible to scans) but the future has not completed yet
   futured,           \* set of jobs for which a future was created
   pending,           \* set of jobs whose future has not been collected yet
   errors,            \* set of jobs reported in the final error
@@ -62,19 +63,21 @@ Init ==
 (* NodeExecution.update_status applied to every node (what `node.done` *)
 (* and the scan observe).  Returns the new st, or "raise" when the      *)
 (* as-built running loop lets ValueError escape.                        *)
+DiskOk(j)  == w[j] \in {"ok", "saved_ok"}
+DiskErr(j) == w[j] \in {"err", "saved_err"}
 Upd(j) ==
   IF st[j] = "queued" THEN
-       IF w[j] = "ok" THEN "successful"
-       ELSE IF w[j] = "err" THEN "errored"
+       IF DiskOk(j) THEN "successful"
+       ELSE IF DiskErr(j) THEN "errored"
        ELSE IF w[j] \in {"executing", "finishing"} THEN "running"
        ELSE "queued"
   ELSE IF st[j] = "running" THEN
-       IF w[j] = "ok" THEN "successful"
-       ELSE IF w[j] = "err" THEN "errored"
+       IF DiskOk(j) THEN "successful"
+       ELSE IF DiskErr(j) THEN "errored"
        ELSE "running"
   ELSE st[j]
 Updated == [j \in Jobs |-> Upd(j)]
-UpdateRaises == RunningLoopRaises /\ \E j \in Jobs : st[j] = "running" /\ w[j] = "err"
+UpdateRaises == RunningLoopRaises /\ \E j \in Jobs : st[j] = "running" /\ DiskErr(j)
 
 NodeStarted(s, n)   == started[n]
 NodeDoneIn(s, sd, n) == sd[n] /\ \A j \in JobsOf(n) : s[j] \in {"successful", "errored"} \/ unrunnable[n]
@@ -116,7 +119,8 @@ ScanFrom(i, acc) ==
            IN ScanFrom(i + 1, [acc EXCEPT !.s = s2, !.sd[n] = TRUE, !.ns = ns2, !.ts = @ \o SetToSeqJ(q2)])
       ELSE ScanFrom(i + 1, [acc EXCEPT !.ns = ns2, !.ts = @ \o SetToSeqJ(queuedNow)])
 
-InFlight == {j \in Jobs : w[j] \in {"submitted", "executing", "finishing"}}
+InFlight == {j \in Jobs : w[j] \in {"submitted", "executing", "finishing", "saved_ok", "saved_err"}}
+Executing == {j \in Jobs : w[j] \in {"submitted", "executing", "finishing"}}
 Limit(ts) == IF K = 0 \/ Len(ts) <= K THEN ts ELSE SubSeq(ts, 1, K)     \* tasks[: max_concurrent]
 
 (* futures created by one pass over `tasks`: as built every task not yet futured; *)
@@ -171,11 +175,14 @@ WorkerStart(j) == /\ w[j] = "submitted" /\ w' = [w EXCEPT ![j] = "executing"]
                   /\ UNCHANGED <<g, K, fails, st, started, unrunnable, futured, pending, errors, tasks, loop, stall>>
 WorkerBodyEnd(j) == /\ w[j] = "executing" /\ w' = [w EXCEPT ![j] = "finishing"]
                     /\ UNCHANGED <<g, K, fails, st, started, unrunnable, futured, pending, errors, tasks, loop, stall>>
-WorkerFinish(j) == /\ w[j] = "finishing" /\ w' = [w EXCEPT ![j] = IF j \in fails THEN "err" ELSE "ok"]
+WorkerFinish(j) == /\ w[j] = "finishing" /\ w' = [w EXCEPT ![j] = IF j \in fails THEN "saved_err" ELSE "saved_ok"]
+                   /\ UNCHANGED <<g, K, fails, st, started, unrunnable, futured, pending, errors, tasks, loop, stall>>
+WorkerReturn(j) == /\ w[j] \in {"saved_ok", "saved_err"}            \* the future completes
+                   /\ w' = [w EXCEPT ![j] = IF w[j] = "saved_ok" THEN "ok" ELSE "err"]
                    /\ UNCHANGED <<g, K, fails, st, started, unrunnable, futured, pending, errors, tasks, loop, stall>>
 
 LoopStep == Scan \/ Launch \/ Wait
-WorkerStep == \E j \in Jobs : WorkerStart(j) \/ WorkerBodyEnd(j) \/ WorkerFinish(j)
+WorkerStep == \E j \in Jobs : WorkerStart(j) \/ WorkerBodyEnd(j) \/ WorkerFinish(j) \/ WorkerReturn(j)
 Next == LoopStep \/ WorkerStep
 Spec == Init /\ [][Next]_vars
 FairSpec == Spec /\ WF_vars(LoopStep) /\ WF_vars(WorkerStep)
@@ -185,17 +192,18 @@ Terminated == loop \in {"done", "error", "crashed"}
 FailedAncestor(j) == \E a \in Ancestors(g, j[1]) : JobsOf(a) \cap fails # {}
 (* C15 *)
 StartAfterPredsSucceeded ==
-  \A j \in Jobs : w[j] # "idle" => \A p \in g.preds[j[1]] : \A q \in JobsOf(p) : w[q] = "ok"
+  \A j \in Jobs : w[j] # "idle" => \A p \in g.preds[j[1]] : \A q \in JobsOf(p) : DiskOk(q)
 EachJobOnce == \A j \in Jobs : (j \in futured) <=> (w[j] # "idle")       \* one future per job, never relaunched
-AllRunWhenNoFailure == (loop = "done") => \A j \in Jobs : w[j] = "ok"
+AllRunWhenNoFailure == (loop = "done") => \A j \in Jobs : DiskOk(j)
 (* C16 *)
 WithinLimit == K > 0 => Cardinality(InFlight) <= K
 (* C14 *)
 IndependentJobsRun ==
   (Terminated /\ pending = {}) => \A j \in Jobs : (~FailedAncestor(j)) => w[j] \in {"ok", "err"}
+NoPendingAtEnd == (loop \in {"done", "error"}) => pending = {}       \* the loop never ends while a future is outstanding
 IndependentJobsRunEventually == <>[](\A j \in Jobs : (~FailedAncestor(j)) => w[j] \in {"ok", "err"})
 DependentsNeverRun == \A j \in Jobs : FailedAncestor(j) => w[j] = "idle"
-ErrorNamesEveryFailedJob == (loop = "error" /\ pending = {}) => (errors = fails \cap futured)
+ErrorNamesEveryFailedJob == (loop = "error") => (errors = fails \cap futured)
 FailureIsReported == (Terminated /\ fails \cap futured # {} /\ pending = {}) => loop # "done"
 NeverCrashes == loop # "crashed"
 (* C18 *)
